@@ -23,12 +23,17 @@ def rows(a):
     return [a] if a.ndim == 1 else [a[i] for i in range(a.shape[0])]
 
 
+_FL = [0]
+
+
 def energy_record(x, dt, tts, nodal, ru, rd, stt, trim, start, scalar_tt=False):
     import eqsig
     from eqsig import surface
     s = eqsig.AccSignal(np.array(x, dtype=float), dt)
     tt_arg = float(tts[0]) if scalar_tt else np.array(tts, dtype=float)
-    kw = dict(nodal=nodal, up_red=ru, down_red=rd, stt=stt, trim=trim, start=start)
+    _FL[0] += 1
+    f_ = lambda b, j: [bool(b), np.bool_(b), int(bool(b))][(_FL[0] + j) % 3]          # flags as python bool / numpy bool / int
+    kw = dict(nodal=f_(nodal, 0), up_red=ru, down_red=rd, stt=stt, trim=f_(trim, 1), start=f_(start, 2))
     k = len(tts)
     try:
         out = surface.calc_surface_energy(s, tt_arg, **kw)
